@@ -88,3 +88,4 @@ package grpc
 //@   assert at call Sprintf#1 s.opts.unknownStreamDesc == nil && !knownService && !haskey(s.services, service)
 //@   assert at call Sprintf#2 s.opts.unknownStreamDesc == nil && knownService && !haskey(srv.streams, method)
 //@   assert at call New#1 arg0 == codes.Unimplemented
+
